@@ -27,7 +27,8 @@ RULE = (
     "operation selection give data null with zero resolver calls; the custom coercer is awaited once per reported error and its return "
     "values are the errors entries; valid requests in which a resolver raises exceptions with non-text / no arguments or a library error "
     "tagged in place through `.extensions`; refusals for syntax / operation selection carry no `extensions` (rule errors keep theirs) and "
-    "no response shows an annotation written into an earlier response. Distinct = SHA-1 of the request; non-trivial = the query is neither a valid document nor empty (it is "
+    "no response shows an annotation written into an earlier response; one exception object failing several positions; argument "
+    "hooks failing for arguments the request did not write (locations must still lie inside the query text). Distinct = SHA-1 of the request; non-trivial = the query is neither a valid document nor empty (it is "
     "broken text, a mutated document or a selection failure)."
 )
 ASSUMPTIONS = ["'syntax error' is the stand-in front end's judgement (tfv/gqlparse.py); the real libgraphqlparser is absent from the sandbox (DESIGN 1.1)"]
@@ -206,6 +207,7 @@ def run_one(spec, h, coercer):
 def case(c, stats):
     schema, plan = c01.build_schema(c)
     plan["two_step"] = c.maybe(40)
+    plan["refuse_unwritten_arguments"] = c.maybe(30)
     coercer = Coercer() if c.maybe(50) else None
     kw = {"error_coercer": coercer} if coercer else {}
     h = run_async(c01.make_harness(schema, plan, kw))
@@ -233,8 +235,10 @@ def case(c, stats):
             q = text
             tree = base["tree"]
             if base["fault_keys"]:
-                fk = c.choice(["raise_odd", "raise_odd", "raise_tagged_in_place", "raise"])
+                fk = c.choice(["raise_odd", "raise_odd", "raise_tagged_in_place", "raise", "raise_shared"])
                 faults = [[c.choice(base["fault_keys"]), {"kind": fk, "payload": c.int(0, 99) if fk == "raise_odd" else None}]]
+                if fk == "raise_shared":  # the same exception object at several positions
+                    faults = [[k, {"kind": fk, "payload": None}] for k in c.subset(base["fault_keys"], 60)[:4] or [base["fault_keys"][0]]]
         elif kind == "deep":
             depth = c.choice([50, 200, 400, 2000])
             which = c.choice(["sel", "list", "obj"])
